@@ -32,7 +32,7 @@ def hcStep (toks : List String) : String :=
     match hcPairs fs, hcTab tab with
     | some fs, some t =>
       let find := fun x => match fs.find? (·.1 == x) with | some p => p.2 | none => x
-      let r := rebuildPass find t
+      let r := rebuildPassId find t
       s!"{hcShowTab r.1} {r.2.length}"
     | _, _ => "bad-op"
   | _ => "bad-op"
